@@ -609,10 +609,22 @@ pub fn execute(plan: &DotPlan) -> RunOutcome {
         };
         judge_diagram(plan, &w, &mut stats, &mut vs, &mut trace);
     } else {
+        // usize symbols: mostly 0..n, sometimes ids for which two test nodes of one diagram can have
+        // the same structural hash (`hash-collision`: x_M collides with -x_j)
+        let mut ids: Vec<usize> = (0..plan.nvars).collect();
+        if plan.nvars >= 2 && plan.target % 5 == 0 {
+            let j = (plan.target as usize / 5) % (plan.nvars - 1);
+            let m = crate::fx::id_colliding_with_negated(j as u64) as usize;
+            if m > plan.nvars {
+                ids[plan.nvars - 1] = m;
+                bump(&mut stats, "fault.hash-collision");
+            }
+        }
+        let (ids1, ids2, ids3) = (ids.clone(), ids.clone(), ids);
         let w = World::<usize> {
-            sym: Box::new(|i| i),
-            idx: Box::new(|s: &usize| *s),
-            label: Box::new(|i| i.to_string()),
+            sym: Box::new(move |i| ids1[i]),
+            idx: Box::new(move |s: &usize| ids2.iter().position(|x| x == s).unwrap_or(usize::MAX)),
+            label: Box::new(move |i| ids3[i].to_string()),
         };
         judge_diagram(plan, &w, &mut stats, &mut vs, &mut trace);
     }
